@@ -121,12 +121,12 @@ with `terminated ∧ truncated` at step 3 -/
 def e2eCfg : Cfg ℚ := ⟨2, .box [-2] [6], 2, 2, false, false, false, id⟩
 def e2eCalls : List (Call ℚ) :=
   [ ⟨true, 6, [[0], [100]], none,
-      [ ⟨[[2], [6]], none, [⟨[1], 1, false, false, []⟩, ⟨[101], 2, false, true, [200]⟩], none⟩,
-        ⟨[[0], [-2]], none, [⟨[2], 3, true, false, [10]⟩, ⟨[201], -1, false, false, []⟩], none⟩,
-        ⟨[[2], [4]], none, [⟨[11], 0, false, false, []⟩, ⟨[202], 5, false, false, []⟩], none⟩,
-        ⟨[[6], [2]], none, [⟨[12], 1, false, false, []⟩, ⟨[203], 0, true, true, [300]⟩], none⟩ ]⟩,
+      [ ⟨[[2], [6]], none, [⟨[1], 1, false, false, [], none⟩, ⟨[101], 2, false, true, [200], none⟩], none⟩,
+        ⟨[[0], [-2]], none, [⟨[2], 3, true, false, [10], none⟩, ⟨[201], -1, false, false, [], none⟩], none⟩,
+        ⟨[[2], [4]], none, [⟨[11], 0, false, false, [], some [2]⟩, ⟨[202], 5, false, false, [], none⟩], none⟩,
+        ⟨[[6], [2]], none, [⟨[12], 1, false, false, [], none⟩, ⟨[203], 0, true, true, [300], none⟩], none⟩ ]⟩,
     ⟨false, 2, [[999], [999]], none,
-      [ ⟨[[-2], [0]], none, [⟨[13], 2, false, false, []⟩, ⟨[301], 7, false, false, []⟩], none⟩ ]⟩ ]
+      [ ⟨[[-2], [0]], none, [⟨[13], 2, false, false, [], none⟩, ⟨[301], 7, false, false, [], none⟩], none⟩ ]⟩ ]
 
 /-- `buffer_size = 7`, two envs: capacity `7 // 2 = 3 < 5` adds — the ring wraps; timeout handling on -/
 def e2eBuf : Replay.Cfg := ⟨7, 2, false, true, false⟩
